@@ -133,6 +133,8 @@ def gen_roundtrip(tier):
         "io": st.sampled_from(["coordinate", "coordinate", "array", "ndarray"]),
         "n": st.integers(1, 6),
         "pseed": st.integers(0, 2**20),
+        # integer-typed point sets (lattice points held in an int64 array) are points too
+        "ptype": st.sampled_from(["float", "float", "float", "int"]),
     })
 
 
@@ -145,11 +147,23 @@ def _ndarray_io(fn, x, what, tags):
                         f"(a documented input type) raised TypeError({e})", tags)
 
 
+def _unchanged(held, before, what, tags):
+    """The caller's point array is an argument, not scratch space."""
+    now = np.asarray(held)
+    if now.shape != before.shape or now.dtype != before.dtype or not np.array_equal(now, before):
+        raise Violation("argument-modified", f"{what} changed the point array handed to it "
+                        f"(first row {before[0].tolist() if before.ndim > 1 else before.tolist()} -> "
+                        f"{now[0].tolist() if now.ndim > 1 else now.tolist()})", tags)
+
+
 def check_inverse_roundtrip(case):
     p = case["p"]
     dim = p["dim"]
     T = _build_T(p)
     x = _points(dim, case["n"], case["pseed"])
+    ptype = case.get("ptype", "float")
+    if ptype == "int":
+        x = np.round(x).astype(np.int64)
     s = float(p["scaling"])
     tn = float(np.abs(p["translation"]).sum())
     io = case["io"]
@@ -167,8 +181,13 @@ def check_inverse_roundtrip(case):
         inv = lambda a: _ndarray_io(T.inverse, a, "T.inverse(x)", tags)  # noqa: E731
     kind = f"inverse-roundtrip:dim{dim}:{_angle_class(p)}"
     n = 0
+    x0 = x.copy()
     for name, f, g in (("T.inverse(T(x))", fwd, inv), ("T(T.inverse(x))", inv, fwd)):
-        y = np.asarray(g(f(X)), dtype=float)
+        mid = f(X)
+        _unchanged(X, x0, f"the first map of {name}", tags)
+        mid0 = np.array(mid, copy=True)
+        y = np.asarray(g(mid), dtype=float)
+        _unchanged(mid, mid0, f"the second map of {name}", tags)
         if y.shape != x.shape:
             raise Violation("roundtrip-shape", f"{name}: shape {y.shape} for input {x.shape}", tags)
         tol = 1e-9 * (1 + np.abs(x).sum(axis=1, keepdims=True) + tn) * max(s, 1 / s)
@@ -181,11 +200,14 @@ def check_inverse_roundtrip(case):
                             tags)
         if io != "array":  # single-point form
             xi = X[0] if io == "ndarray" else darsia.Coordinate(x[0])
+            xi0 = np.array(xi, copy=True)
             yi = np.asarray(g(f(xi)), dtype=float)
+            _unchanged(xi, xi0, f"{name} (single point)", tags)
             if yi.shape != (dim,) or np.any(np.abs(yi - x[0]) > tol[0]):
                 raise Violation(kind, f"{name} (single point): {x[0].tolist()} -> {yi.tolist()}", tags)
     return Outcome(nontrivial=(dim == 3 and _nnz(p) >= 2) or _nnz(p) >= 1 or s != 1.0,
-                   key=[p, io, case["pseed"], case["n"]], labels=_plabels(p, f"io-{io}"), evals=n)
+                   key=[p, io, case["pseed"], case["n"], ptype],
+                   labels=_plabels(p, f"io-{io}", f"points-{ptype}"), evals=n)
 
 
 # ---- 1b. the same object re-parameterised ------------------------------------------------
@@ -244,55 +266,135 @@ def check_reparametrised(case):
     return Outcome(True, [ps, case["use"]], (f"dim{dim}", f"steps{len(ps)}"), evals=len(ps))
 
 
-# ---- 1c. maps fitted (isometry option) from exact point pairs ----------------------------
+# ---- 1c. maps fitted from exact point pairs ----------------------------------------------
 
 
-def gen_fitted(tier):
+def gen_fitted(tier, only=None):
     @st.composite
     def strat(draw):
         dim = draw(st.sampled_from([2, 2, 3]))
-        shape = [draw(st.integers(3, 8 if dim == 2 else 5)) for _ in range(dim)]
+        mx = 8 if dim == 2 else 5
+        shape = [draw(st.integers(3, mx)) for _ in range(dim)]
         vox = [draw(st.sampled_from([0.5, 1.0, 0.25, 0.3, 2.0])) for _ in range(dim)]
-        shift = [draw(st.integers(-3, 3)) for _ in range(dim)]
-        return {"dim": dim, "shape": shape, "vox": vox, "shift": shift,
-                "maker": draw(st.sampled_from(["voxel", "voxel_center"])),
+        shift = [draw(st.sampled_from([0, 0, 0, 1, -1, 1, -1, 2, -2, 3, -3])) for _ in range(dim)]
+        if draw(st.integers(0, 9)) == 0:  # farther than the image is wide
+            shift[draw(st.integers(0, dim - 1))] = draw(st.sampled_from([-1, 1])) * (mx + 1)
+        isometry = draw(st.sampled_from([True, True, False]))
+        if only == "coordinate-isometry":
+            isometry, maker = True, "coordinate"
+        elif isometry:
+            # (coordinate points + isometry: sub-check fitted_coordinate_isometry)
+            maker = draw(st.sampled_from(["voxel", "voxel_center"]))
+        else:
+            # (a plain fit from Voxel-typed pairs pulls integer positions back, which sit on voxel
+            # faces: the rounding of the fitted translation decides the voxel - not held to exactness)
+            maker = draw(st.sampled_from(["voxel_center", "coordinate"]))
+        case = {"dim": dim, "shape": shape, "vox": vox, "shift": shift, "maker": maker,
+                "isometry": isometry,
                 "npts": draw(st.integers(dim + 2, 8)), "pseed": draw(st.integers(0, 2**20)),
-                "ctor": draw(st.sampled_from(["AffineCorrection", "CoordinateTransformation"]))}
+                "ctor": draw(st.sampled_from(["AffineCorrection", "CoordinateTransformation"])),
+                "dst_shape": None, "offset": [0] * dim, "k_src": None}
+        if draw(st.booleans()):
+            # destination system of another shape and origin (same voxel size: the maps are
+            # translations), source system with an origin of its own
+            case["dst_shape"] = [draw(st.integers(2, mx)) for _ in range(dim)]
+            case["offset"] = [draw(st.integers(-3, 3)) for _ in range(dim)]
+            case["k_src"] = [draw(st.integers(-20, 20)) for _ in range(dim)]
+        return case
 
     return strat()
 
 
+def _origin_of(dim, shape, vox, k):
+    """Origin (Cartesian) from integer multiples k of the voxel size of each Cartesian axis;
+    k None: the default origin."""
+    dims = [n * v for n, v in zip(shape, vox)]
+    if k is None:
+        return dims, None
+    return dims, [float(k[c] * vox[AXES[dim][c][0]]) for c in range(dim)]
+
+
 def check_fitted_isometry(case):
-    """An affine correction *fitted* with the isometry option from exact point pairs of the identity
-    or a whole-voxel translation (given as voxels or voxel centres) returns exactly the input / its
-    zero-filled shift.  (Design-time probe: exact in 120 of 120 configurations on the unchanged tree;
-    the pulled-back centres land on source voxel centres, far from any face.)"""
+    """A correction *fitted* from exact point pairs of the identity or a whole-voxel translation
+    returns exactly the input / its zero-filled shift in the destination system: AffineCorrection and
+    CoordinateTransformation, with the isometry option (points handed over as voxels, voxel centres
+    or coordinates of voxel centres; the map then lives in physical coordinates) and without
+    (voxel centres, coordinates), between equal or different source / destination systems.
+    (The fit starts from the centre-of-mass translation, which is the exact answer here; the
+    pulled-back centres land on source voxel centres, half a voxel away from any face, so the
+    result does not depend on the optimiser's tolerance.  Design-time probes: 120/120 and 400/400
+    exact on the unchanged tree.)"""
+    from vf.oracles import RefCS
+
     dim, shape, vox = case["dim"], case["shape"], case["vox"]
+    isometry = bool(case.get("isometry", True))
+    dshape = case.get("dst_shape") or shape
+    offset = case.get("offset") or [0] * dim
     rng = np.random.default_rng(case["pseed"])
     arr = rng.integers(1, 9, size=shape).astype(float)
-    img = darsia.Image(arr.copy(), space_dim=dim, dimensions=[s * v for s, v in zip(shape, vox)], scalar=True)
-    cs = img.coordinatesystem
+    dims_s, o_s = _origin_of(dim, shape, vox, case.get("k_src"))
+    kd = None
+    if case.get("dst_shape"):
+        ks = case["k_src"]
+        kd = [ks[c] + offset[AXES[dim][c][0]] for c in range(dim)]
+    dims_d, o_d = _origin_of(dim, dshape, vox, kd)
+    kw_s = {} if o_s is None else {"origin": list(o_s)}
+    kw_d = {} if o_d is None else {"origin": list(o_d)}
+    img = darsia.Image(arr.copy(), space_dim=dim, dimensions=list(dims_s), scalar=True, **kw_s)
+    host = darsia.Image(np.zeros(dshape), space_dim=dim, dimensions=list(dims_d), scalar=True, **kw_d)
+    cs, cd = img.coordinatesystem, host.coordinatesystem
     shift = np.array(case["shift"])
     src = np.array([[int(rng.integers(0, n)) for n in shape] for _ in range(case["npts"])])
     src[: dim + 1] = np.vstack([np.zeros(dim, int), np.eye(dim, dtype=int) * (np.array(shape) - 1)])
     dst = src + shift
-    mk = darsia.make_voxel if case["maker"] == "voxel" else darsia.make_voxel_center
-    tags = {"dim": dim, "maker": case["maker"], "ctor": case["ctor"]}
-    if case["ctor"] == "AffineCorrection":
-        corr = darsia.AffineCorrection(cs, cs, mk(src), mk(dst), fit_options={"isometry": True})
+    maker = case["maker"]
+    same = not case.get("dst_shape")
+    tags = {"dim": dim, "maker": maker, "ctor": case["ctor"], "isometry": isometry, "same_system": same}
+    if maker == "coordinate":
+        # physical coordinates of the voxel centres, from the reference map of the harness
+        p_src = darsia.CoordinateArray(RefCS(dim, shape, dims_s, o_s).coordinate(src + 0.5))
+        p_dst = darsia.CoordinateArray(RefCS(dim, dshape, dims_d, o_d).coordinate(dst + 0.5))
     else:
-        corr = darsia.CoordinateTransformation(cs, cs, mk(src), mk(dst), fit_options={"isometry": True})
-    out = np.asarray(corr(img).img)
-    want = np.zeros_like(arr)
-    sl_dst = tuple(slice(max(0, k), min(n, n + k)) for k, n in zip(shift, shape))
-    sl_src = tuple(slice(max(0, -k), min(n, n - k)) for k, n in zip(shift, shape))
-    want[sl_dst] = arr[sl_src]
+        mk = darsia.make_voxel if maker == "voxel" else darsia.make_voxel_center
+        p_src, p_dst = mk(src), mk(dst)
+    ctor = darsia.AffineCorrection if case["ctor"] == "AffineCorrection" else darsia.CoordinateTransformation
+    try:
+        corr = ctor(cs, cd, p_src, p_dst, fit_options={"isometry": isometry})
+    except AssertionError as e:
+        if isometry and maker == "coordinate" and "coordinatesystem must be provided" in str(e):
+            # CoordinateArray is a documented point type and isometry a documented option
+            raise Violation("fitted:coordinate-points-isometry", f"{case['ctor']}(..., CoordinateArray "
+                            f"points, fit_options={{'isometry': True}}) raised AssertionError({e})", tags)
+        raise
+    T = corr.transformation if case["ctor"] == "AffineCorrection" else corr.affine_correction.transformation
+    if isometry and (float(T.scaling) != 1.0 or T.input_dtype is not darsia.Coordinate):
+        raise Violation("fitted:isometry-map", f"isometry fit left scaling {T.scaling!r} / input type "
+                        f"{T.input_dtype.__name__} (documented: an isometry operating on coordinates)", tags)
+    res = corr(img)
+    out = np.asarray(res.img)
+    V = _dst_voxels(dshape)
+    want, n_valid = _apply_model(arr, V, V - shift, shape, dshape)
+    kind = f"fitted-isometry:{maker}" if isometry else f"fitted-plain:{maker}"
     if out.shape != want.shape or not np.array_equal(out, want):
-        raise Violation(f"fitted-isometry:{case['maker']}", f"{case['ctor']} fitted (isometry) from exact "
-                        f"{case['maker']} pairs of the whole-voxel shift {shift.tolist()} on shape {shape}: result "
-                        f"is not the zero-filled shift (max difference {np.abs(out - want).max() if out.shape == want.shape else 'shape'})", tags)
-    return Outcome(bool(np.any(shift != 0)), case, (f"dim{dim}", case["maker"], case["ctor"],
-                                                    "identity" if not np.any(shift) else "shift"))
+        raise Violation(kind, f"{case['ctor']} fitted (isometry={isometry}) from exact "
+                        f"{maker} pairs of the whole-voxel shift {shift.tolist()}, source shape {shape} -> "
+                        f"destination shape {list(dshape)} (origin offset {offset} voxels): result is not the "
+                        f"zero-filled shift (max difference "
+                        f"{np.abs(out - want).max() if out.shape == want.shape else 'shape'})", tags)
+    if not np.array_equal(img.img, arr):
+        raise Violation("fitted:input-modified", "the input image changed", tags)
+    if case["ctor"] == "CoordinateTransformation":
+        # labelled with the destination system
+        if [float(d) for d in res.dimensions] != [float(d) for d in host.dimensions] or \
+                not np.array_equal(np.asarray(res.origin, float), np.asarray(host.origin, float)):
+            raise Violation("fitted:label", f"result dimensions / origin {list(res.dimensions)} / "
+                            f"{np.asarray(res.origin).tolist()}, destination system {list(host.dimensions)} / "
+                            f"{np.asarray(host.origin).tolist()}", tags)
+    return Outcome(bool(np.any(shift != 0)) or not same, case,
+                   (f"dim{dim}", maker, case["ctor"], "identity" if not np.any(shift) else "shift",
+                    "isometry" if isometry else "plain-fit",
+                    "same-system" if same else "different-system",
+                    "all-outside" if n_valid == 0 else ("all-inside" if n_valid == len(V) else "partly-outside")))
 
 
 # ---- 2. rotation_orthonormal ------------------------------------------------------------
@@ -376,9 +478,14 @@ def check_documented_action(case):
     elif case["partial"] == "translation":
         tr = tr + 1.0
         T.set_parameters(translation=tr.copy())
-    elif case["partial"] == "rotation" and dim == 2:
-        R = _std_rotation(2, [0.25])
-        T.set_parameters(rotation=np.array([0.25]))
+    elif case["partial"] == "rotation":
+        # only the rotation is replaced (3-D: about the axis that already was the non-zero one,
+        # or about z) - translation and scaling keep their values
+        new = [0.0] * len(p["angles"])
+        nz = [i for i, a in enumerate(p["angles"]) if a != 0.0]
+        new[nz[0] if nz else len(new) - 1] = 0.25
+        R = _std_rotation(dim, new)
+        T.set_parameters(rotation=np.array(new))
     x = _points(dim, case["n"], case["pseed"])
     X = darsia.CoordinateArray(x)
     T.set_dtype(X, X)
@@ -474,6 +581,21 @@ def check_array_vs_single(case):
             raise Violation("typed-translation", f"integer translation {shift.tolist()} of "
                             f"{ARRAY[rin].__name__} {Xa[0].tolist()} gives {np.asarray(Y)[0].tolist()}, "
                             f"expected {wantY[0].tolist()}", tags)
+        # ... and back: inverse(y) = y - t in the input representation (computed here, not with
+        # the code's inverse_array); with equal in/out types that is the original point set
+        wantZ = np.asarray(ARRAY[rin](np.asarray(wantY, dtype=float) - shift))
+        gotZ = np.asarray(Z)
+        if rin == "coordinate":
+            okZ = gotZ.shape == wantZ.shape and np.all(
+                np.abs(gotZ - wantZ) <= 64 * EPS * (1 + tn + np.abs(wantZ)))
+        else:
+            okZ = gotZ.shape == wantZ.shape and np.array_equal(gotZ, wantZ)
+        if okZ and rin == rout and rin != "coordinate":
+            okZ = np.array_equal(gotZ, np.asarray(X))
+        if not okZ:
+            raise Violation("typed-translation-inverse", f"inverse of the integer translation "
+                            f"{shift.tolist()} applied to {ARRAY[rout].__name__} {wantY[0].tolist()} gives "
+                            f"{gotZ[0].tolist()}, expected {wantZ[0].tolist()} ({ARRAY[rin].__name__})", tags)
     return Outcome(nontrivial=rin != rout or not case["exact"],
                    key=[p, rin, rout, case["pseed"], case["n"]],
                    labels=_plabels(p, f"in-{rin}", f"out-{rout}", "lattice-map" if case["exact"] else "generic-map"),
@@ -556,7 +678,10 @@ def warp_cases(draw, families=("identity", "shift", "quarter", "resample"), reps
         "payload": payload, "ncomp": draw(st.integers(1, 3)), "nt": draw(st.integers(1, 3)),
         "dtype": draw(st.sampled_from(["float64", "float64", "uint8", "float32", "bool"])),
         "pseed": draw(st.integers(0, 2**16)),
-        "form": draw(st.sampled_from(["image", "image", "array"])),
+        "form": draw(st.sampled_from(["image", "image", "array", "correct_array"])),
+        # the third call through the same object hands over another kind of payload
+        "payload3": draw(st.sampled_from(["same", "scalar", "vector", "series", "vector-series"])),
+        "dtype3": draw(st.sampled_from(["same", "float64", "uint8", "float32", "bool"])),
     }
 
 
@@ -798,17 +923,44 @@ def _cmp(got, want, what, case, tags, V, Vs):
                         f"-> dst {case['dst_shape']})", tags)
 
 
+def _third_spec(case, spec):
+    """Spec of the payload of the third call: same geometry, other values and (drawn) another
+    payload kind / dtype - the per-object cache holds the voxel map only."""
+    c3 = dict(case)
+    if case.get("payload3", "same") != "same":
+        c3["payload"] = case["payload3"]
+    if case.get("dtype3", "same") != "same":
+        c3["dtype"] = case["dtype3"]
+    spec3 = _src_spec(c3)
+    spec3["pseed"] = spec["pseed"] + 1
+    return spec3
+
+
 def check_warp_exact(case):
     tags, g, spec, src, host, T = _setup_warp(case)
     V, Vs = _set_exact(T, case, g, tags)
     tc = darsia.TransformationCorrection(src.coordinatesystem, host.coordinatesystem, T)
     arr = src.img.copy()
     want, n_valid = _apply_model(arr, V, Vs, case["src_shape"], case["dst_shape"])
+    form = case["form"]
 
     def run(image, a):
-        if case["form"] == "array":
-            return tc(a.copy())
-        return tc(image).img
+        """a: the harness' own copy of the payload.  ``correction(array)`` is documented to work
+        on a copy: it is handed a second array (no defensive copy in between), which must still
+        hold the payload afterwards and must not be the memory of the result.  (correct_array
+        itself is the in-place-capable routine of the correction framework: values only.)"""
+        if form == "image":
+            return tc(image).img
+        handed = a.copy()
+        if form == "correct_array":
+            return tc.correct_array(handed)
+        out = tc(handed)
+        if not np.array_equal(handed, a):
+            raise Violation("warp-mutates-input", "the array handed to correction(array) changed", tags)
+        if np.shares_memory(out, handed):
+            raise Violation("warp-aliases-input", "the result of correction(array) shares memory with "
+                            "the array handed over", tags)
+        return out
 
     got = run(src, arr)
     _cmp(got, want, "first call", case, tags, V, Vs)
@@ -817,14 +969,24 @@ def check_warp_exact(case):
     # second call on the same object: the cached map gives the same
     got2 = run(src, arr)
     _cmp(got2, want, "second call (cached map)", case, tags, V, Vs)
-    # another payload of the same geometry through the same object
-    spec2 = dict(spec, pseed=spec["pseed"] + 1)
-    src2 = gens.build_image(spec2)
-    want2, _ = _apply_model(src2.img.copy(), V, Vs, case["src_shape"], case["dst_shape"])
-    _cmp(run(src2, src2.img.copy()), want2, "third call (other payload, cached map)", case, tags, V, Vs)
+    if form != "correct_array" and np.shares_memory(got, got2):
+        raise Violation("warp-aliases-result", "two calls returned the same memory", tags)
+    # another payload of the same geometry (other values, possibly another payload kind / dtype)
+    # through the same object
+    spec3 = _third_spec(case, spec)
+    src3 = gens.build_image(spec3)
+    arr3 = src3.img.copy()
+    want3, _ = _apply_model(arr3, V, Vs, case["src_shape"], case["dst_shape"])
+    _cmp(run(src3, arr3), want3, "third call (other payload, cached map)", case, tags, V, Vs)
+    if form != "correct_array":
+        _cmp(got, want, "result of the first call after later calls", case, tags, V, Vs)
+    other = spec3["payload"] != spec["payload"] or spec3["series"] != spec["series"] or \
+        spec3["dtype"] != spec["dtype"]
     return Outcome(nontrivial=_warp_nontrivial(case, n_valid),
-                   key=[{k: case[k] for k in case if k not in ("form",)}],
-                   labels=_warp_labels(case, n_valid, len(V)), evals=3 * len(V))
+                   key=[{k: case[k] for k in case if k not in ("form", "payload3", "dtype3")}],
+                   labels=_warp_labels(case, n_valid, len(V)) +
+                   ("third-other-payload" if other else "third-same-payload",),
+                   evals=3 * len(V))
 
 
 # ---- 5b. generic maps against a float pull-back (centres away from faces only) -----------
@@ -1014,7 +1176,11 @@ _RULE = ("points: Hypothesis draws dimension 2/3, translation in +-1e3, scaling 
          "systems (<= 12x12, <= 5^3; equal or different shape, origin offset, voxel-size ratio p/q), "
          "identity / whole-voxel shifts (incl. beyond the image) / quarter turns (2-D; about 1-3 axes "
          "in 3-D), expressed in coordinates, voxels or voxel centres, scalar / vector / series payload "
-         "of 4 dtypes, image or array call; non-trivial = non-zero angle or scaling (points), shift "
+         "of 4 dtypes, correction(image) / correction(array) / correct_array(array) call, a third call "
+         "through the same object with another payload kind / dtype; fitted maps: AffineCorrection / "
+         "CoordinateTransformation fitted (isometry option on / off) from exact voxel, voxel-centre or "
+         "coordinate pairs of a whole-voxel shift between equal or different systems; float- and "
+         "integer-typed point arrays; non-trivial = non-zero angle or scaling (points), shift "
          ">= 1 voxel or quarter turn of a non-square image or src != dst system or >= 2 turned axes "
          "(warps); distinct = the case")
 
@@ -1026,7 +1192,13 @@ PROP = Prop(
     rule=_RULE,
     assumptions=[
         "maps are set exactly through set_parameters / set_parameters_as_vector; fitted maps "
-        "(Powell, tol 1e-2) are not held to exactness",
+        "(Powell, tol 1e-2) are held to exactness only for exact pairs of whole-voxel translations "
+        "(the fit starts at the exact answer and the pulled-back centres are half a voxel away from "
+        "any face); plain fits from Voxel-typed pairs pull integer positions (voxel faces) back and "
+        "are not generated",
+        "correction(array) is documented to work on a copy (argument unchanged, result not aliased); "
+        "correct_array itself is only held to its values",
+        "point arrays handed to the maps are arguments: unchanged afterwards",
         "warp oracle: integer pull-back model (destination voxel -> source voxel) written in the "
         "harness; for quarter turns about several axes the forward matrix (a signed permutation) "
         "is read from the object, its inverse is not",
@@ -1041,7 +1213,10 @@ PROP = Prop(
         Sub("reparametrised_object", check_reparametrised, gen=gen_reparam,
             n={"quick": 1200, "thorough": 30000}, shards=_SH4),
         Sub("fitted_isometry_exact", check_fitted_isometry, gen=gen_fitted,
-            n={"quick": 300, "thorough": 6000}, shards=_SH4),
+            n={"quick": 400, "thorough": 8000}, shards=_SH4),
+        Sub("fitted_coordinate_isometry", check_fitted_isometry,
+            gen=lambda tier: gen_fitted(tier, only="coordinate-isometry"),
+            n={"quick": 60, "thorough": 1500}, shards={"quick": 1, "thorough": 4}),
         Sub("rotation_orthonormal", check_rotation_orthonormal, gen=gen_rotation, n=_N_PT, shards=_SH4),
         Sub("documented_action", check_documented_action, gen=gen_action, n=_N_PT, shards=_SH4),
         Sub("array_vs_single", check_array_vs_single, gen=gen_array_single, n=_N_PT, shards=_SH4),
